@@ -1020,6 +1020,13 @@ func (w *world) judge(what string, env *engine.ExecutionPayloadEnvelope, beaconR
 		w.probe("blocks-with-withdrawals")
 	}
 	w.observe("%s -> block %d %x txs=%d gas=%d", what, block.NumberU64(), block.Hash().Bytes()[:6], ntx, block.GasUsed())
+	if trace {
+		for i, tx := range block.Transactions() {
+			from, _ := types.Sender(w.signer, tx)
+			tip, _ := tx.EffectiveGasTip(block.BaseFee())
+			fmt.Printf("TX %d %x from %x nonce %d tip %v time %d\n", i, tx.Hash().Bytes()[:4], from[:3], tx.Nonce(), tip, tx.Time().UnixMicro()%100_000_000)
+		}
+	}
 	return block
 }
 
@@ -1327,7 +1334,7 @@ func Checks() map[string]*simcore.Check {
 			"actions planned for the same virtual instant as a recommit tick (Resolve at exactly k*Recommit, at +0) race with the builder goroutine in real time; such slots are excluded from the determinism fingerprint",
 			"state prefetcher and trie hashing goroutines inside one build",
 		},
-		Runs:       map[string]int{"quick": 960, "thorough": 30000},
+		Runs:       map[string]int{"quick": 2400, "thorough": 30000},
 		Gen:        Gen, Decode: Decode, Run: Run, Shrink: Shrink,
 		ProbeNames: []string{"blocks-imported", "blocks-imported-nonempty", "blocks-with-blob-txs", "blocks-with-setcode-txs", "blocks-with-withdrawals", "included-tx-failed-receipt", "block-full", "resolved-before-first-full-build", "resolved-full", "head-changed-during-build", "built-on-non-head-parent", "builder-tx-failed-account-skipped", "builder-skipped-low-nonce", "builder-tx-does-not-fit-gas", "builder-block-gas-exhausted", "builder-tx-does-not-fit-blobs", "builder-fill-interrupted-by-timeout", "payload-loop-ended-by-delivery", "payload-loop-ended-by-timeout", "pool-rejected", "pool-replaced", "event-add", "event-replace", "event-head", "event-tip", "event-extra"},
 	}}
